@@ -586,6 +586,9 @@ pub async fn catch_up_sub(
             } else {
                 break;
             }
+            #[cfg(feature = "verif")]
+            klukai_types::verif::point("catchup.retry", &matcher.id().to_string());
+
             // sleep 100 millis
             tokio::time::sleep(Duration::from_millis(100)).await;
         }
